@@ -45,6 +45,7 @@ func genC06(r *kernel.Rand, tier string) *kernel.Scenario {
 		c["ctx_ms"] = int64([]int{5, 50, 2000}[r.Intn(3)])
 	}
 	c["yield_pct"] = int64([]int{0, 30, 100}[r.Intn(3)])
+	c["long_yields"] = int64(r.Intn(2))
 	for k := 0; k < nch; k++ {
 		sc.Steps = append(sc.Steps, kernel.St("open", "from", r.Intn(2), "r", int64(r.Uint64()>>2), "app", r.Intn(2), "assets", 1+r.Intn(2)))
 	}
